@@ -135,7 +135,11 @@ func (s *store) Delete(key string) (err error) {
 func (s *store) Iterate(prefix string, iterFunc storage.StateIterFunc) (err error) {
 	iter := s.db.Search(driver.Query{Prefix: driver.Key{Data: []byte(prefix)}, MatchPrefix: true})
 	defer func() {
-		err = iter.Close()
+		// keep the first error: the callback's or the cursor's error must
+		// not be overwritten by the result of closing the cursor
+		if cerr := iter.Close(); err == nil {
+			err = cerr
+		}
 	}()
 	for ; iter.Valid(); iter.Next() {
 		stop, err := iterFunc(iter.Key(), iter.Value())
